@@ -313,3 +313,72 @@ def NameOK (terms : List String) (s : String) : Bool :=
   | c :: cs => isIdStart c && cs.all isIdChar && !terms.contains s
 
 end Holpy.C07
+
+namespace Holpy.C07
+
+/-! ### Consistency of the printer's table with the grammar's ladder (decidable) -/
+
+def Ladder.n (L : Ladder) : Nat := L.levels.length
+
+def Ladder.at (L : Ladder) (i : Nat) : Level := L.levels.getD i ⟨"", .alias, []⟩
+
+/-- ladder level of the operator of table row `o`: the first level of the right kind that has its ascii spelling -/
+def rowLevel (T : Table) (L : Ladder) (o : Nat) : Nat :=
+  L.levels.findIdx (fun lv =>
+    (if (T.row o).arity = .unary then lv.kind = .pre else (lv.kind = .infixL ∨ lv.kind = .infixR)) ∧ lv.has (T.row o).ascii)
+
+/-- level of the top construct of an operand; application = `n`, atoms = `n + 1` -/
+def clsLevel (T : Table) (L : Ladder) : Cls → Nat
+  | .atom => L.n + 1
+  | .app => L.n
+  | .opn => L.n + 1
+  | .bin o => rowLevel T L o
+  | .un o => rowLevel T L o
+
+/-- the operand may stand without brackets where the grammar asks for level `req` -/
+abbrev fits (T : Table) (L : Ladder) (c : Cls) (req : Nat) : Prop := c ≠ .opn ∧ req ≤ clsLevel T L c
+
+def leftReq (L : Ladder) (l : Nat) : Nat := if (L.at l).kind = .infixL then l else l + 1
+def rightReq (L : Ladder) (l : Nat) : Nat := if (L.at l).kind = .infixL then l + 1 else l
+
+def classes (T : Table) : List Cls :=
+  [.atom, .app, .opn] ++ (List.range T.ops.length).map (fun o => if (T.row o).arity = .unary then Cls.un o else Cls.bin o)
+
+abbrev RowOK (T : Table) (L : Ladder) (o : Nat) : Prop :=
+  ((T.row o).arity = .binary →
+    rowLevel T L o < L.n ∧ ((L.at (rowLevel T L o)).kind = .infixL ∨ (L.at (rowLevel T L o)).kind = .infixR) ∧
+    (L.at (rowLevel T L o)).has (T.row o).ascii = true ∧ (L.at (rowLevel T L o)).has (T.row o).unicode = true ∧
+    T.find .binary (T.row o).ascii = some o ∧ T.find .binary (T.row o).unicode = some o ∧
+    ∀ c ∈ classes T, (brL T o c = false → fits T L c (leftReq L (rowLevel T L o))) ∧
+                     (brR T o c = false → fits T L c (rightReq L (rowLevel T L o)))) ∧
+  ((T.row o).arity = .unary →
+    rowLevel T L o < L.n ∧ (L.at (rowLevel T L o)).kind = .pre ∧
+    (L.at (rowLevel T L o)).has (T.row o).ascii = true ∧ (L.at (rowLevel T L o)).has (T.row o).unicode = true ∧
+    T.find .unary (T.row o).ascii = some o ∧ T.find .unary (T.row o).unicode = some o ∧
+    ∀ c ∈ classes T, brU T o c = false → fits T L c (rowLevel T L o))
+
+abbrev AppOK (T : Table) (L : Ladder) : Prop :=
+  ∀ c ∈ classes T, (brF T c = false → fits T L c L.n) ∧ (brA T c = false → fits T L c (L.n + 1))
+
+def isInfix (k : Kind) : Bool := k = .infixL ∨ k = .infixR
+
+abbrev LadderOK (L : Ladder) : Prop :=
+  (∀ i < L.n, ∀ j < L.n, i ≠ j → ∀ s ∈ (L.at i).syms.flatten, (L.at j).has s = true →
+      ¬ ((isInfix (L.at i).kind = true ∧ isInfix (L.at j).kind = true) ∨ ((L.at i).kind = .pre ∧ (L.at j).kind = .pre))) ∧
+  (∀ i < L.n, ∀ s ∈ (L.at i).syms.flatten, L.binderIdx s = none) ∧
+  (∀ b < L.binders.length, L.binders.getD b [] ≠ [] ∧ ∀ s ∈ L.binders.getD b [], L.binderIdx s = some b)
+
+/-- every bracket the printer omits is one the grammar does not need; spellings agree -/
+abbrev TableConsistent (T : Table) (L : Ladder) : Prop :=
+  (∀ o < T.ops.length, RowOK T L o) ∧ AppOK T L ∧ LadderOK L
+
+/-- well-formed skeleton: operator rows exist with the right arity, binder alternatives exist -/
+def Skel.WF (T : Table) (L : Ladder) : Skel → Prop
+  | .atom _ => True
+  | .app f a => f.WF T L ∧ a.WF T L
+  | .bin o l r => o < T.ops.length ∧ (T.row o).arity = .binary ∧ l.WF T L ∧ r.WF T L
+  | .un o a => o < T.ops.length ∧ (T.row o).arity = .unary ∧ a.WF T L
+  | .binder b _ body => b < L.binders.length ∧ body.WF T L
+  | .ite c a b => c.WF T L ∧ a.WF T L ∧ b.WF T L
+
+end Holpy.C07
